@@ -1894,6 +1894,35 @@ type dgRendered struct {
 	origin [][2]int // per source line (1-based index-1): chunk index, line index; {-1,-1} for header
 }
 
+// emitTwinInterfaces adds interfaces that agree on their method *names* but
+// not on the signatures, each implemented by its own concrete type through an
+// unexported method that is only ever reached through the interface.
+func (g *dg) emitTwinInterfaces() {
+	k := g.rng.IntN(1000)
+	ia, ib := fmt.Sprintf("twStarter%d", k), fmt.Sprintf("twRunner%d", k)
+	ta, tb := fmt.Sprintf("twJob%d", k), fmt.Sprintf("twBatch%d", k)
+	m := dgPick(g, []string{"run", "step", "apply"})
+	sigB := dgPick(g, []string{"n int", "s string", "n int, s string"})
+	retB := dgPick(g, []string{"", " int", " error"})
+	body := map[string]string{"": "", " int": " return 0 ", " error": " return nil "}[retB]
+	g.add(g.normalFile(), fixed("type "+ia+" interface{ "+m+"() }", "twin-iface"))
+	g.add(g.normalFile(), fixed("type "+ib+" interface{ "+m+"("+sigB+")"+retB+" }", "twin-iface"))
+	g.add(g.normalFile(), fixed("type "+ta+" struct{}", "twin-impl"))
+	g.add(g.normalFile(), fixed("func ("+ta+") "+m+"() {}", "twin-method"))
+	g.add(g.normalFile(), fixed("type "+tb+" struct{}", "twin-impl"))
+	g.add(g.normalFile(), fixed("func ("+tb+") "+m+"("+sigB+")"+retB+" {"+body+"}", "twin-method"))
+	if g.p(50) {
+		g.add(g.normalFile(), fixed(fmt.Sprintf("func TwUse%d() (%s, %s) { return %s{}, %s{} }", k, ia, ib, ta, tb), "twin-use"))
+	} else {
+		g.add(g.normalFile(), fixed(fmt.Sprintf("var TwA%d %s = %s{}", k, ia, ta), "twin-use"))
+		g.add(g.normalFile(), fixed(fmt.Sprintf("var TwB%d %s = %s{}", k, ib, tb), "twin-use"))
+		if g.p(50) {
+			// an interface literal with the same method name in otherwise unrelated, used code
+			g.add(g.normalFile(), fixed(fmt.Sprintf("func TwLit%d(x interface{ %s() }) { x.%s() }", k, m, m), "twin-literal"))
+		}
+	}
+}
+
 func (g *dg) render() []*dgRendered {
 	out := make([]*dgRendered, len(g.files))
 	for fi, fb := range g.files {
@@ -2127,6 +2156,9 @@ func DeclGen(rng *rand.Rand, opt DeclOptions) *DeclPkg {
 	g.emitTypes()
 	g.emitFuncs()
 	g.emitTests()
+	if g.p(40) {
+		g.emitTwinInterfaces()
+	}
 	// shuffle declaration order inside files (generation order is types-first otherwise)
 	g.rng.Shuffle(len(g.chunks), func(i, j int) { g.chunks[i], g.chunks[j] = g.chunks[j], g.chunks[i] })
 
